@@ -117,7 +117,10 @@ def draw_plan(rng: random.Random, prop: str, methods=None) -> dict:
     }
     if cfg["fluid"]["fluid_name"] != "WATER":
         cfg["fluid"]["concentration_percent"] = gen.r3(rng.uniform(5.0, 30.0))
-    mode = rng.choices(["monotone", "adversarial", "faulty"], [0.6, 0.25, 0.15])[0]
+    # monotone: excess strictly decreasing in boreholes x height; sorted: monotone *sign* along the list but seeded
+    # magnitudes (what a system flow rate does: per-borehole flow falls as the field grows and the excess creeps back
+    # towards zero); adversarial: arbitrary sign pattern; faulty: monotone with a ValueError at the k-th evaluation
+    mode = rng.choices(["monotone", "sorted", "adversarial", "faulty"], [0.45, 0.2, 0.2, 0.15])[0]
     eff_hi = max(1, min(nhi, cap - 1) if cap else nhi)
     # feasibility threshold: from "below one borehole at min height" to "above the largest field at max height"
     where = rng.choices(["below", "interior", "above", "edge_lo", "edge_hi"], [0.12, 0.6, 0.12, 0.08, 0.08])[0]
@@ -133,7 +136,10 @@ def draw_plan(rng: random.Random, prop: str, methods=None) -> dict:
         dthr = math.exp(rng.uniform(math.log(max_h), math.log(max(max_h * 1.01, nhi * max_h))))
     ev = {"mode": mode, "dthr": gen.r3(dthr), "k": gen.r3(rng.uniform(2.0, 30.0)), "alpha": gen.r3(rng.uniform(0.7, 1.0)),
           "binding": rng.choice(["max", "min"]), "pattern_seed": rng.randrange(1 << 30),
-          "p_feasible": gen.r3(rng.uniform(0.2, 0.8)), "fault_k": rng.randint(1, 40), "where": where}
+          "p_feasible": gen.r3(rng.uniform(0.2, 0.8)), "fault_k": rng.randint(1, 40), "where": where,
+          # height dependence: normally the excess falls with height; with negligible loads pushing the fluid away from the
+          # nearer limit (or saturated fields) it can creep the other way while keeping its sign
+          "h_rising": rng.random() < 0.25}
     return {"engine": "E3", "property": prop, "cfg": cfg, "eval": ev}
 
 
@@ -159,13 +165,24 @@ class Evaluator:
         n = len(coords)
         s = self.s
         hmax = self.sim["max_height"]
+        hmin = self.sim["min_height"]
+        mono = s["k"] * (s["dthr"] / ((n ** s["alpha"]) * h) - 1.0)
         if s["mode"] in ("monotone", "faulty"):
-            e = s["k"] * (s["dthr"] / ((n ** s["alpha"]) * h) - 1.0)
+            e = mono
+            if s.get("h_rising"):
+                # same sign at both ends, but creeping the "wrong" way with height when far from the root
+                e_lo = s["k"] * (s["dthr"] / ((n ** s["alpha"]) * hmin) - 1.0)
+                e_hi = s["k"] * (s["dthr"] / ((n ** s["alpha"]) * hmax) - 1.0)
+                if e_lo * e_hi > 0 and min(abs(e_lo), abs(e_hi)) > 0.2 * s["k"]:
+                    e = e_hi + (e_lo - e_hi) * (h - hmin) / (hmax - hmin)  # mirrored: value at hmin <-> value at hmax
         else:
             key = hashlib.sha256(f"{s['pattern_seed']}:{n}:{coords[-1][0]!r}:{coords[-1][1]!r}".encode()).digest()
             u = int.from_bytes(key[:8], "big") / 2.0 ** 64
             mag = 0.5 + 8.0 * (int.from_bytes(key[8:16], "big") / 2.0 ** 64)
-            e_max = -mag if u < s["p_feasible"] else mag
+            if s["mode"] == "sorted":
+                e_max = -mag if s["k"] * (s["dthr"] / ((n ** s["alpha"]) * hmax) - 1.0) < 0 else mag
+            else:
+                e_max = -mag if u < s["p_feasible"] else mag
             e = e_max + 0.05 * s["k"] * (hmax - h) / hmax * 10.0
         if e == 0.0:
             e = 1.0e-9
@@ -466,7 +483,7 @@ def oracle_c05(plan, obs):
                                 f"returned {n}x{h:.3f}={total:.1f} m > {e['n']}x{hmax} of evaluated feasible {e['spec']} "
                                 f"({method},{mode}{', a list search raised and was swallowed' if swallowed else ''})",
                                 site=f"{method}:{mode}" + (":swallowed_search_error" if swallowed else ""))
-    if method in ("NEARSQUARE", "RECTANGLE", "BIRECTANGLE") and mode == "monotone":
+    if method in ("NEARSQUARE", "RECTANGLE", "BIRECTANGLE") and mode in ("monotone", "sorted"):
         s = obs["search"]
         dom = s.coordinates_domain
         key = s.selection_key
